@@ -225,13 +225,32 @@ Definition transpose_q (q : list Z) : list Z :=
 (* ----------------------------------------------------------- image level *)
 Record comp := mkcomp {
   c_hs : Z; c_vs : Z; c_wb : Z; c_hb : Z;
-  c_q : list Z;                 (* quantval[64] of the table the component uses *)
+  c_tq : Z;                     (* quant_tbl_no: the slot the component refers to *)
+  c_q : list Z;                 (* quantval[64] of comp_info[ci].quant_table: the table LATCHED from the
+                                   slot when the component's first scan started (jdinput.c) *)
   c_blk : srcfn }.
 
 Record image := mkimage {
   i_w : Z; i_h : Z;
   i_cs : Z;                     (* J_COLOR_SPACE: 1 grayscale, 2 RGB, 3 YCbCr, 4 CMYK, 5 YCCK *)
+  i_slots : list (list Z);      (* quant_tbl_ptrs[0..3] after the whole file was read ([] = NULL):
+                                   a DQT between scans may have redefined a slot *)
   i_comps : list comp }.
+
+Definition slot_of (slots : list (list Z)) (tq : Z) : list Z := nth (Z.to_nat tq) slots [].
+
+Fixpoint zlist_eqb (a b : list Z) : bool :=
+  match a, b with
+  | [], [] => true
+  | x :: a', y :: b' => (x =? y) && zlist_eqb a' b'
+  | _, _ => false
+  end.
+
+(* jpeg_copy_critical_parameters: the destination can hold one table per slot (the source's final
+   slot contents are copied); every component's latched table must still be the one in its slot,
+   otherwise JERR_MISMATCHED_QUANT_TABLE *)
+Definition quant_ok (im : image) : bool :=
+  forallb (fun c => zlist_eqb (c_q c) (slot_of (i_slots im) (c_tq c))) (i_comps im).
 
 Inductive xop := XNone | XFlipH | XFlipV | XTranspose | XTransverse | XRot90 | XRot180 | XRot270.
 
@@ -247,7 +266,7 @@ Record xopts := mkxopts {
   xo_op : xop; xo_perfect : bool; xo_trim : bool; xo_gray : bool;
   xo_crop : option cropspec; xo_slow : bool }.
 
-Inductive xerr := ENotPerfect | EBadCrop | ECropExt | ENoGray | EAlign.
+Inductive xerr := ENotPerfect | EBadCrop | ECropExt | ENoGray | EAlign | EQuantReuse.
 
 Definition max_hs (cs : list comp) : Z := fold_right (fun c m => Z.max (c_hs c) m) 1 cs.
 Definition max_vs (cs : list comp) : Z := fold_right (fun c m => Z.max (c_vs c) m) 1 cs.
@@ -367,9 +386,11 @@ Definition transform (im : image) (o : xopts) : xerr + image :=
   match request_workspace im o with
   | inl e => inl e
   | inr p =>
+      if negb (quant_ok im) then inl EQuantReuse else
       if xo_gray o && negb (gray_ok im) then inl ENoGray else
       let op := xo_op o in
       let tr := transposes op in
+      let slots := map (fun q => if tr then transpose_q q else q) (i_slots im) in
       let srcs := firstn (Z.to_nat (p_nc p)) (i_comps im) in
       let samps := map (dst_samp (p_nc p) tr) srcs in
       let mh := fold_right (fun s m => Z.max (fst s) m) 1 samps in
@@ -380,11 +401,11 @@ Definition transform (im : image) (o : xopts) : xerr + image :=
         let wb := cdiv (p_ow p * hs) (mh * 8) in
         let hb := cdiv (p_oh p * vs) (mv * 8) in
         let g := mkgeom hs vs wb hb (c_wb c) (i_w im) (i_h im) mh mv (p_xco p) (p_yco p) in
-        mkcomp hs vs wb hb (if tr then transpose_q (c_q c) else c_q c)
+        mkcomp hs vs wb hb (c_tq c) (slot_of slots (c_tq c))
                (exec_comp op (xo_slow o) g (c_blk c)) in
       inr (mkimage (p_ow p) (p_oh p)
                    (if xo_gray o then 1 else i_cs im)
-                   (map mk srcs))
+                   slots (map mk srcs))
   end.
 
 (* ------------------------------------------------- tj3Transform wrapper *)
